@@ -2,6 +2,8 @@ package main
 
 import (
 	"fmt"
+	"path/filepath"
+	"sort"
 	"strings"
 )
 
@@ -36,6 +38,9 @@ func checkParser(c *checkCtx, prop string) {
 	ws := newWorkspace(strings.ToLower(prop))
 	defer ws.close()
 	var gs []*gSpec
+	for _, txt := range corpusGrammars() {
+		ws.add(txt)
+	}
 	for i := 0; i < nGram; i++ {
 		g := genGrammar(c.rng, gramOpts{maxRules: 5, maxTokens: 5})
 		gs = append(gs, g)
@@ -72,6 +77,7 @@ func checkParser(c *checkCtx, prop string) {
 	type job struct {
 		s      *wsSpec
 		inputs [][]int
+		sent   []bool // input k was produced by a derivation of the grammar
 		tabs   *parserTables
 	}
 	var jobs []*job
@@ -100,19 +106,20 @@ func checkParser(c *checkCtx, prop string) {
 		j := &job{s: s, tabs: t}
 		nterm := len(s.dump.Terminals)
 		seen := map[string]bool{}
-		addIn := func(w []int) {
+		addIn := func(w []int, sentence bool) {
 			k := fmt.Sprint(w)
 			if !seen[k] && len(w) <= 60 {
 				seen[k] = true
 				j.inputs = append(j.inputs, w)
+				j.sent = append(j.sent, sentence)
 			}
 		}
-		addIn(nil)
+		addIn(nil, false)
 		for k := 0; k < nInputs; k++ {
 			w := sm.sentence(c.rng, 2+c.rng.intn(5))
-			addIn(w)
+			addIn(w, true)
 			if k%2 == 0 && nterm > 2 {
-				addIn(mutateTokens(c.rng, w, nterm))
+				addIn(mutateTokens(c.rng, w, nterm), false)
 			}
 		}
 		jobs = append(jobs, j)
@@ -205,13 +212,34 @@ func checkParser(c *checkCtx, prop string) {
 				c.addFinding(f)
 			}
 		}
-		if f, ok := j.s.tag.(*finding); ok {
-			// validator failed: find a sentence the real parser rejects
-			for k, w := range j.inputs {
-				if k < len(implOut) && strings.HasPrefix(implOut[k], "REJ") && k%1 == 0 {
-					_ = w
-				}
+		// independent of the model: a sampled derivation is a sentence, the parser must accept it;
+		// on a broken obligation, an Earley recogniser searches the sampled inputs for a wrong verdict
+		f, broken := j.s.tag.(*finding)
+		found := false
+		for k, w := range j.inputs {
+			if k >= len(implOut) {
+				break
 			}
+			acc := strings.HasPrefix(implOut[k], "ACC")
+			isSent := j.sent[k]
+			if !isSent && broken {
+				isSent = earleyAccepts(j.s.dump, w)
+			} else if !isSent {
+				continue
+			}
+			if isSent != acc && (j.sent[k] || broken) {
+				found = true
+				what := "rejects the sentence"
+				if acc {
+					what = "accepts the non-sentence"
+				}
+				c.addFinding(finding{Signature: "parser-" + strings.Fields(what)[0] + "-wrongly",
+					Desc:   fmt.Sprintf("the generated parser %s %v of the grammar", what, tokenNames(j.s.dump, w)),
+					Replay: map[string]any{"spec": j.s.loxText, "tokens": w, "token_names": tokenNames(j.s.dump, w), "parser": implOut[k]}})
+				break
+			}
+		}
+		if broken && !found {
 			c.addFinding(*f)
 		}
 	}
@@ -251,4 +279,26 @@ func mergeExtra(a, b map[string]any) map[string]any {
 		a[k] = v
 	}
 	return a
+}
+
+func tokenNames(d *jDump, w []int) []string {
+	var out []string
+	for _, t := range w {
+		if t >= 0 && t < len(d.Terminals) {
+			out = append(out, d.Terminals[t].Name)
+		} else {
+			out = append(out, fmt.Sprint(t))
+		}
+	}
+	return out
+}
+
+func corpusGrammars() []string {
+	files, _ := filepath.Glob(filepath.Join(verifDir, "corpus", "grammars", "*.lox"))
+	sort.Strings(files)
+	var out []string
+	for _, f := range files {
+		out = append(out, readFile(f))
+	}
+	return out
 }
